@@ -591,6 +591,7 @@ func c13Run(c *Ctx) {
 	}
 	c13RunRerun(c)
 	heapPatchOpGen(c, c.N(400)) // heap_share2.go
+	heapSetOpGen(c, c.N(300))   // heap_share2.go
 }
 
 // c13Heads / c13Tails: special beginnings and endings of imported files.
@@ -673,6 +674,8 @@ func c13Eval(c *Ctx, kind string, raw []byte) {
 	switch kind {
 	case "heap-patchop":
 		heapPatchOpEval(c, raw) // heap_share2.go
+	case "heap-setop":
+		heapSetOpEval(c, raw) // heap_share2.go
 	case "set":
 		c13EvalSet(c, raw)
 	case "template":
